@@ -312,7 +312,7 @@ fn ref_time_field(r: &mut Cur, kind: u8, h: u32, mi: u32, s: u32, us: u32) {
     }
 }
 
-//@ unit c04_time_field prop=C04,C03 chunks=range:0:17 quick=all unwind=12 mem=5 timeout=1500 stubs=crate::util::try_format=>crate::verif_support::stub_try_format,crate::time::Time::extract=>crate::format::verif_h_fmt_fields::stub_time_extract bound="Time: every time of day (h, m, s, us as fields - all 86.4e9 microseconds), picture = the single time token given by the parameter (HH24, HH12, MI, SS, AM/am/A.M./a.m., FF, FF1..FF9): output bytes equal the reference rendering (fractions truncated)"
+//@ unit c04_time_field prop=C04,C03 chunks=range:0:17 quick=all unwind=12 mem=5 timeout=1500 stubs=crate::util::try_format=>crate::verif_support::stub_try_format,crate::time::Time::extract=>crate::format::verif_h_fmt_fields::stub_time_extract bound="Time: every time of day (h, m, s, us as fields - all 86.4e9 microseconds), picture = the single time token given by the parameter (HH24, HH12, MI, SS, AM/am/A.M./a.m., FF, FF1..FF6; FF7..FF9 - a float division by 0.1/0.01/0.001 - in the thorough tier only): output bytes equal the reference rendering (fractions truncated)"
 fn c04_time_field(kind: u8) {
     let (t, (h, mi, s, us)) = ghost_time();
     let fmt = one_field(time_field(kind));
